@@ -267,6 +267,20 @@ def run(rep):
             rep.violation(f"{args[1]} messages, segmentation '{args[2]}', {args[3]} consumer(s): {verdict}", {"kind": "recv", "args": list(args)})
             if len(rep.violations) >= 10:
                 return
+    # the first bytes of the peer's first message ride in the segment that completes the capabilities exchange (both roles)
+    for i in range(5 if quick else 60):
+        for early in (1, 19, 20, 28, 60):
+            seed = rng.getrandbits(30)
+            verdict, info = assoc.run_recv(seed, 2, "random", 1, early=early)
+            rep.case(("early", i, early))
+            if verdict:
+                rep.violation(f"{early} bytes of the first message arrive with the CEA / CER: {verdict}", {"kind": "recv", "args": [seed, 2, "random", 1], "early": early})
+                break
+    # a burst that fills the transport's read buffer exactly (4 x 64 KiB)
+    verdict, info = assoc.run_recv(5, 0, "buffer", 1, fine=False)
+    rep.case(("buffer",))
+    if verdict:
+        rep.violation(f"a burst of exactly 262144 bytes (4 messages of 64 KiB in one segment): {verdict}", {"kind": "recv", "args": [5, 0, "buffer", 1], "fine": False})
     # every split point of a two-message stream (the stream is 2 x ~100 bytes)
     probe = assoc.Scenario("client", 1)
     try:
@@ -286,7 +300,7 @@ def run(rep):
         rep.violation(f"two messages delivered one byte at a time: {verdict}", {"kind": "recv", "args": [4242, 2, "bytes", 1]})
     # one-preemption sweeps at opcode / line granularity over the conflicting critical sections
     nsweep = 0
-    for kind in ("transport/worker", "worker/transport", "consumer/psm", "psm/consumer", "consumer/consumer"):
+    for kind in ("transport/worker", "worker/transport", "consumer/psm", "psm/consumer", "psm2/consumer", "consumer/consumer"):
         for k in range(0, 400):
             verdict, info = assoc.run_recv_sweep(kind, k)
             rep.case(("sweep", kind, k))
@@ -347,7 +361,7 @@ def replay(rep, path):
     r = json.load(open(path))["replay"]
     nodemod.ensure_installed(0)
     if r["kind"] == "recv":
-        verdict, info = assoc.run_recv(*r["args"], fine=r.get("fine"))
+        verdict, info = assoc.run_recv(*r["args"], fine=r.get("fine"), early=r.get("early", 0))
     elif r["kind"] == "sweep":
         verdict, info = assoc.run_recv_sweep(r["pair"], r["k"])
     elif r["kind"] == "recv-cut":
